@@ -539,12 +539,9 @@ class TeX(object):
             an integer, the `case' matching this integer will be returned.
 
         """
-        # Since the true content always comes first, we need to set
-        # True to case 0 and False to case 1.
-        elsefound = False
-        if isinstance(which, bool):
-            if which: which = 0
-            else: which = 1
+        # The true content always comes first (case 0); the false content
+        # is whatever follows \else.
+        elsecase = None
 
         cases = [[]]
         nesting = 0
@@ -568,6 +565,7 @@ class TeX(object):
                 nesting -= 1
             elif not(nesting) and name == 'else':
                 cases.append([])
+                elsecase = len(cases) - 1
                 continue
             elif not(nesting) and name == 'or':
                 cases.append([])
@@ -579,7 +577,16 @@ class TeX(object):
             log.warning(r'\end occurred when \if was incomplete')
 
         # else case for ifs without elses
-        cases.append([])
+        if elsecase is None:
+            cases.append([])
+            elsecase = len(cases) - 1
+
+        # False, and an \ifcase selector that is not one of the listed
+        # cases, select the \else content
+        if isinstance(which, bool):
+            which = 0 if which else elsecase
+        elif not (0 <= which < elsecase):
+            which = elsecase
 
         # Push if-selected tokens back into tokenizer
         self.pushTokens(cases[which])
